@@ -160,3 +160,22 @@ package qr
 //@   ensures result2 == nil && result0.model[3] ==> qrIsNum(result0, result1, content)
 //@   ensures result2 == nil && result0.model[2] ==> qrIsAn(result0, result1, content)
 //@   ensures result2 == nil && result0.model[1] ==> qrIsByte(result0, result1, content)
+
+// ---------------------------------------------------------------- the image type (C11)
+//@ func (*qrcode).Content
+//@   requires qr != nil
+//@   ensures result == qr.content
+//@ func (*qrcode).Metadata
+//@   ensures result.CodeKind == barcode.TypeQR && result.Dimensions == 2
+//@ func (*qrcode).ColorModel
+//@   requires qr != nil
+//@   ensures result == qr.color.Model
+//@ func (*qrcode).ColorScheme
+//@   requires c != nil
+//@   ensures result == c.color
+//@ func (*qrcode).Bounds
+//@   requires qr != nil && 0 <= qr.dimension && qr.dimension <= 1000
+//@   ensures result.Min.X == 0 && result.Min.Y == 0 && result.Max.X == qr.dimension && result.Max.Y == qr.dimension
+//@ func (*qrcode).At
+//@   requires qr != nil && qr.data != nil && 0 <= x && x < qr.dimension && 0 <= y && y < qr.dimension && qr.dimension <= 1000 && qr.data.count == qr.dimension * qr.dimension
+//@   ensures result == (qr.data.model[x*qr.dimension + y] ? qr.color.Foreground : qr.color.Background)
